@@ -48,6 +48,15 @@ def _child_main(wfd, prop_mod, scenario, seam_override=None):
         except core.Violation as v:          # raised to abort the run early
             if not any(x["signature"] == v.signature for x in ctx.violations):
                 ctx.violations.append(v.as_dict())
+        except Exception as e:
+            # An exception raised *inside the library* on an input the generator considers valid is a
+            # verdict about the library ("exceptions escaping the library are violations"), not harness
+            # trouble; anything raised by harness code itself stays a harness error.
+            where = _raised_in_library(e)
+            if where is None:
+                raise
+            ctx.violation("unhandled", "%s/unhandled/raises:%s@%s" % (prop_mod.ID, type(e).__name__, where),
+                          "".join(traceback.format_exception(type(e), e, e.__traceback__))[-1500:])
         res = ctx.result()
         res["unseeded"] = sorted(set(seams.unseeded))
         res["clock_span"] = seams.clock.span
@@ -68,6 +77,24 @@ def _child_main(wfd, prop_mod, scenario, seam_override=None):
         os.close(wfd)
     finally:
         os._exit(0)
+
+
+def _raised_in_library(exc):
+    """'module.function' of the deepest setigen frame if the exception was raised in (or beneath) library
+    code called by the harness; None if the deepest frame that is either harness or library code is harness
+    code.  Frames of numpy/scipy/astropy/blimpy beneath the library count for the library."""
+    frames = []
+    tb = exc.__traceback__
+    while tb is not None:
+        frames.append(tb.tb_frame)
+        tb = tb.tb_next
+    for fr in reversed(frames):
+        fn = fr.f_code.co_filename
+        if "/verif/sim/" in fn or fn.endswith("run_check.py"):
+            return None
+        if "/setigen/" in fn:
+            return os.path.basename(fn)[:-3] + "." + fr.f_code.co_name
+    return None
 
 
 def run_child(prop_mod, scenario, timeout=None, seam_override=None):
